@@ -42,6 +42,16 @@ type Case struct {
 	Why    string `json:"why"`
 	Twin   []int  `json:"twin"` // kind twins: same bytes up to Extent, every byte after it different
 	Extent int    `json:"extent"`
+	Depth  int    `json:"depth"` // kind nest: the tree is MCWire's Nest(depth), rebuilt here (TLC cannot print it)
+}
+
+// nestTree is MCWire.tla's Nest(n): a text string under n structures
+func nestTree(n int) *Tree {
+	if n == 0 {
+		return &Tree{Tag: 5505026, Ty: 7, V: json.RawMessage("[100,101,101,112]")}
+	}
+	kid, _ := json.Marshal([]*Tree{nestTree(n - 1)})
+	return &Tree{Tag: 5505025 + n%3, Ty: 1, V: kid}
 }
 
 // kept: encodings handed out earlier; they are values - later calls of the encoder must not change them
@@ -336,7 +346,10 @@ func TestReplay(t *testing.T) {
 				bad("c02:result-depends-on-bytes-outside-the-declared-extent", map[string]any{"extent": c.Extent, "a": fmt.Sprintf("%x", spec), "b": fmt.Sprintf("%x", toBytes(c.Twin)),
 					"result_a": da.Outcome + ":" + canon(projValue(da.Value)), "result_b": db.Outcome + ":" + canon(projValue(db.Value))})
 			}
-		case "tree":
+		case "tree", "nest":
+			if c.Kind == "nest" {
+				c.Tree = nestTree(c.Depth)
+			}
 			want := canon(projTree(c.Tree))
 			// (a) the library's encoder against the specification's bytes
 			got, pan := marshal(treeToValue(c.Tree))
